@@ -4,7 +4,10 @@
     shape of the filter_map of CommentMasker::create_mask;
   * the comment-leader characters of is_comment_character (harper-comments/src/comment_parsers/mod.rs);
   * the node conditions (CommentParser: kind contains "comment"; HtmlParser: kind == "text");
-  * the two LaTeX fences of the Literate Haskell masker.
+  * the two LaTeX fences of the Literate Haskell masker;
+  * the guard of Markdown::parse's event loop (harper-core/src/parsers/markdown.rs: behind_cursor, the cursor
+    advance, covered_until, the list of guarded events — 8b26ba4 / b736ef8) and the empty-body skip of the
+    Code / Math arm (a37d1cc), statement by statement.
 Raises when a table no longer has the shape it knows."""
 import os, re
 
@@ -87,6 +90,43 @@ def generate(repo):
     fences = re.findall(r'trimmed == r"([^"]*)"', src5)
     if sorted(set(fences)) != sorted({"\\begin{code}", "\\end{code}"}):
         raise RuntimeError("LHS masker: fences changed: %r" % fences)
+    # ---- Markdown::parse: the guard of the event loop ----
+    src6 = open(os.path.join(repo, "harper-core/src/parsers/markdown.rs"), encoding="utf-8").read()
+    if "fn parse(&self, source: &[char])" not in src6:
+        raise RuntimeError("markdown.rs: Markdown::parse not found")
+    body6 = src6[src6.index("fn parse(&self, source: &[char])"):]
+    md_shape = [
+        r"let mut traversed_bytes = 0;\s*let mut traversed_chars = 0;",
+        r"let mut covered_until = 0;",
+        r"for \(event, range\) in md_parser\.into_offset_iter\(\) \{",
+        r"let behind_cursor = range\.start < traversed_bytes;",
+        r"if range\.start > traversed_bytes \{\s*traversed_chars \+= source_str\[traversed_bytes\.\.range\.start\]\.chars\(\)\.count\(\);\s*traversed_bytes = range\.start;\s*\}",
+        r"if let Some\(last\) = tokens\.last\(\) \{\s*covered_until = covered_until\.max\(last\.span\.end\);\s*\}",
+        r"if \(behind_cursor \|\| traversed_chars < covered_until\)\s*&& matches!\(\s*event,(?P<evs>[^)]*(?:\(_\)[^)]*)*)\)\s*\{\s*continue;\s*\}",
+        r"match event \{",
+        r"pulldown_cmark::Event::InlineMath\(code\)\s*\| pulldown_cmark::Event::DisplayMath\(code\)\s*\| pulldown_cmark::Event::Code\(code\) => \{\s*let chunk_len = code\.chars\(\)\.count\(\);\s*(?://[^\n]*\s*)*if chunk_len == 0 \{\s*continue;\s*\}",
+    ]
+    pos = 0
+    guarded = None
+    for pat in md_shape:
+        mm = re.compile(pat).search(body6, pos)
+        if not mm:
+            raise RuntimeError("markdown.rs: the event loop of Markdown::parse no longer has the guard shape (%s)" % pat)
+        if "evs" in mm.groupdict():
+            guarded = mm.group("evs")
+        pos = mm.end()
+    names = []
+    for t in guarded.split("|"):
+        mt = re.fullmatch(r"pulldown_cmark::Event::(\w+)(\(_\))?", t.strip())
+        if not mt:
+            raise RuntimeError("markdown.rs: unrecognised pattern in the guard's event list: %r" % t)
+        names.append(mt.group(1))
+    known_events = {"SoftBreak", "HardBreak", "InlineMath", "DisplayMath", "Code", "Text", "Html", "InlineHtml"}
+    if set(names) - known_events or len(names) != len(set(names)):
+        raise RuntimeError("markdown.rs: the guard names an event the model does not know or repeats one: %r" % names)
+    code6 = re.sub(r"//[^\n]*", "", body6)
+    if code6.count("covered_until") != 4 or code6.count("behind_cursor") != 2:
+        raise RuntimeError("markdown.rs: covered_until / behind_cursor are used elsewhere than in the guard")
     out = ["(* GENERATED by tools/tables/masks.py from /repo — do not edit. *)",
            "From Coq Require Import List NArith String.", "Import ListNotations.", "",
            "(* CommentMasker::new: text.contains(m) for m in ignore_markers || text.starts_with(p) for p in ignore_prefixes *)",
@@ -107,4 +147,7 @@ def generate(repo):
     out.append("(* Literate Haskell fences *)")
     out.append("Definition lhs_begin_code : list N := %s." % cps("\\begin{code}"))
     out.append("Definition lhs_end_code : list N := %s." % cps("\\end{code}"))
+    out.append("(* Markdown::parse: `if (behind_cursor || traversed_chars < covered_until) && matches!(event, ..) { continue; }` *)")
+    out.append("Definition md_guarded_events : list string := [%s]." % "; ".join('"%s"%%string' % n for n in names))
+    out.append("Definition md_guard_has_behind_cursor : bool := true.")
     return "\n".join(out) + "\n"
